@@ -12,7 +12,7 @@
 (*                    operand position of a second operator                *)
 (*   P_SIZE = 1 small leaf set / 2 full leaf set                           *)
 (***************************************************************************)
-EXTENDS YaeUniverse2, YaeIO
+EXTENDS YaeUniverse2, YaeVM, YaeIO
 
 VARIABLE st
 EnvId == "E1"
@@ -49,11 +49,12 @@ Universe ==
   CASE P_MODE = "u1" -> AllU1(L) \o AllU1c3(L)
     [] P_MODE = "u2" -> U2
     [] P_MODE = "objs" -> ObjProgs
-    [] P_MODE = "partial" -> PartialProgs
+    [] P_MODE = "partial" -> PartialProgs(P_SIZE)
     [] P_MODE = "builtins" -> BuiltinProgs(P_SIZE)
     [] P_MODE = "lazy" -> LazyProgs
     [] P_MODE = "opt" -> OptProgs
     [] P_MODE = "over" -> OverProgs
+    [] P_MODE = "bc" -> BcProgs
     [] OTHER -> <<>>
 NU == Len(Universe)
 NSeeds == 64
@@ -80,6 +81,34 @@ Progress == Acc => st.run.r.st \in {"ok", "fail", "ood"}
 FailsOnlyPartially == Acc /\ st.run.r.st = "fail" => st.run.r.why \in {"index", "key", "mod0", "regex"}
 \* C05 (algorithm side): the inferred type is slot-free (fully concrete)
 TypeConcrete == Acc => SlotFree(st.run.ty)
+(* ---- the bytecode back end against the big-step semantics (C03, C11; cfg Gen_EvalVM) ---- *)
+CaseFuns == FunTable2(StdPre(st.envid), StdPost(st.envid))
+CaseEnv == InEnv(StdEnvIn(st.envid))
+BC == CompileBC(st.run.e, CaseFuns)
+\* C03: the VM produces the value / failure and the host-call log of the big-step semantics;
+\* compilation is refused only when an operand exceeds its encoding width
+VMRefinesEval ==
+  Acc /\ st.run.r.st \in {"ok", "fail"} =>
+    LET bc == BC IN
+    /\ bc.ok
+    /\ LET o == VMOutcome(bc, CaseEnv) IN
+       /\ o.st = st.run.r.st
+       /\ (o.st = "ok" => o.out.v = st.run.r.v)
+       /\ (o.st = "fail" => o.out.why = st.run.r.why)
+       /\ o.log = st.run.r.log
+\* C11: what the compilation scheme emits is structurally safe
+BytecodeVerifies == Acc => LET bc == BC IN bc.ok => VerifyBC(bc.code, bc.pool) = {}
+\* C11 corollary: a run needs at most one step per emitted instruction and frame activation
+\* (jumps go forward only), so it cannot loop
+StepsBounded ==
+  Acc /\ st.run.r.st \in {"ok", "fail"} =>
+    LET bc == BC
+        o == VMOutcome(bc, CaseEnv)
+        acts == {<<i, o.trace[i].b>> : i \in {j \in 1..Len(o.trace) : o.trace[j].pc = 0}} IN
+    \* every activation of a body executes each of its offsets at most once
+    \A i, j \in 1..Len(o.trace) : i < j /\ o.trace[i].b = o.trace[j].b /\ o.trace[i].pc = o.trace[j].pc
+        => \E k \in (i + 1)..j : o.trace[k].b = o.trace[i].b /\ o.trace[k].pc = 0
+
 \* the standard environment conforms
 EnvConforms == ConformingEnv(Env)
 =============================================================================
